@@ -17,7 +17,8 @@ SRC = "event_dispatcher_linux.go"
 
 def source_cfg():
     """The three size literals of event_dispatcher_linux.go (they are not named package constants)."""
-    txt = open(os.path.join(core.REPO, SRC)).read()
+    from vlib import gosrc
+    txt = gosrc.read(SRC)
 
     def ev(expr):
         if not re.fullmatch(r"[\d\s\*]+", expr):
@@ -96,10 +97,13 @@ def eval_dispatch(cases, tag):
             for i in re.findall(r"(\d+)", body.replace("%nat", "")) if int(i) < len(ds)] or ["unparsed: " + body[:200]]
 
 
-def run_harness(n, nbig, seed, tag, nbidir=3):
+def run_harness(n, nbig, seed, tag, nbidir=3, nrec=8, cfg=None):
     outp = os.path.join(core.WORK, "c18_%s_%d.jsonl" % (tag, os.getpid()))
     rc, out, secs = core.go_test(PROP, "^TestVerif_C18$", {"VERIF_OUT": outp, "VERIF_N": str(n), "VERIF_NBIG": str(nbig),
-                                                            "VERIF_NBIDIR": str(nbidir), "VERIF_SEED": str(seed)}, timeout=2400)
+                                                            "VERIF_NBIDIR": str(nbidir), "VERIF_NREC": str(nrec), "VERIF_SEED": str(seed),
+                                                            "VERIF_INIT_LEN": str((cfg or {}).get("init_len", 65536)),
+                                                            "VERIF_THRESHOLD": str((cfg or {}).get("threshold", 1 << 20)),
+                                                            "VERIF_SHRINK_LIMIT": str((cfg or {}).get("shrink_limit", 4 << 20))}, timeout=2400)
     if rc != 0:
         try:
             os.unlink(outp)
@@ -137,10 +141,10 @@ def check(run):
         run.add_corr_break("G: " + gerr)
     cfg, errs = source_cfg()
     for e in errs:
-        run.add_corr_break("G: " + e)
+        run.add_corr_break("G: " + e, shape=True)
     run.proof = core.proof_step(PROP, run.tier)
-    n, nbig, nbidir = (60, 2, 3) if run.tier == "quick" else (2000, 40, 30)
-    cases, err = run_harness(n, nbig, run.seed, run.tier, nbidir)
+    n, nbig, nbidir, nrec = (66, 2, 3, 8) if run.tier == "quick" else (2000, 40, 30, 150)
+    cases, err = run_harness(n, nbig, run.seed, run.tier, nbidir, nrec, cfg)
     if err:
         run.add_corr_break("D: " + err)
         cases = []
@@ -164,7 +168,7 @@ def check(run):
     for c in cases:
         fs = set(c.get("feat") or [])
         if fs & {"buffer-grew", "buffer-shrank", "nonzero-start", "partial-consumption", "zero-consumption", "concurrent-writers", "message>sndbuf",
-                 "bidirectional", "dispatch-all-event-masks"}:
+                 "bidirectional", "dispatch-all-event-masks", "record-consumer"}:
             distinct += 1
         for f in fs:
             feats[f] = feats.get(f, 0) + 1
@@ -192,7 +196,7 @@ def check(run):
         "the three buffer-size literals are read from event_dispatcher_linux.go by pattern; the theorems hold for every value"]
 
     def search():
-        cs, e = run_harness(150, 4, run.seed + (1 << 50), "search")  # far away in the PRNG stream (seeds d apart = streams shifted by d draws)
+        cs, e = run_harness(150, 4, run.seed + (1 << 50), "search", 3, 20, cfg)  # far away in the PRNG stream (seeds d apart = streams shifted by d draws)
         return oracle_failures(cs)
     return run.finish(search)
 
